@@ -60,7 +60,7 @@ def load_known() -> dict[str, Any]:
         return json.load(fh)
 
 
-def finish(prop: str, tier: str, seed: int, results: list[RuleResult], t0: float, stats: dict[str, Any], meta: dict[str, Any], only: tuple[str, str] | None = None) -> int:
+def finish(prop: str, tier: str, seed: int, results: list[RuleResult], t0: float, stats: dict[str, Any], meta: dict[str, Any], only: tuple[str, str] | None = None, write: bool = True) -> int:
     """Print the verdict lines, write evidence, return the exit code."""
     known = load_known()
     known_keys = {(k["property"], k["rule"], k["key"]): k for k in known.get("findings", [])}
@@ -93,8 +93,9 @@ def finish(prop: str, tier: str, seed: int, results: list[RuleResult], t0: float
             n_viol += 1
             k += 1
             path = os.path.join(VIOL_DIR, f"{prop}-{f.rule}-{k}.json")
-            with open(path, "w") as fh:
-                json.dump(f.as_dict(prop), fh, indent=1)
+            if write:
+                with open(path, "w") as fh:
+                    json.dump(f.as_dict(prop), fh, indent=1)
             lines.append(f"VIOLATION property={prop} replay={path}")
             lines.append(f"  {prop}.{f.rule} at {f.where}: {f.message}")
             lines.append(f"  key: {f.key}")
@@ -157,7 +158,7 @@ def finish(prop: str, tier: str, seed: int, results: list[RuleResult], t0: float
         "wall_s": round(time.time() - t0, 3),
         "violations": n_viol,
     }
-    if only is None:
+    if only is None and write:
         os.makedirs(EVIDENCE_DIR, exist_ok=True)
         with open(os.path.join(EVIDENCE_DIR, f"{prop}.json"), "w") as fh:
             json.dump(evidence, fh, indent=1, default=str)
